@@ -327,9 +327,105 @@ func runLockProbe(j job) (r result) {
 	return
 }
 
+// runInstProbe: the same for the lock of an instance.  Cells[0] says what `o` is: "clos" / "flavor" (made
+// synchronized with set-synchronized) or "clos-plain" / "flavor-plain" (not synchronized).  The harness takes the
+// instance lock through the instance's exported Lock() - exactly what SlotValue / SetSlotValue / Scope.get do around a
+// slot access - and, holding it, lets another goroutine evaluate the (already compiled) form.
+func runInstProbe(j job) (r result) {
+	r.ID = j.ID
+	slip.CurrentPackage = &slip.UserPkg
+	scope := slip.NewScope()
+	src := "(make-instance 'c17icell)"
+	if strings.HasPrefix(j.Cells[0], "flavor") {
+		src = "(make-instance 'c17ifcell)"
+	}
+	o := common.EvalIn(scope, src)
+	if o.Err != "" {
+		r.Err = o.Err + ": " + o.Msg
+		return
+	}
+	scope.Let(slip.Symbol("o"), o.Value)
+	if !strings.HasSuffix(j.Cells[0], "-plain") {
+		if so := common.EvalIn(scope, "(set-synchronized o t)"); so.Err != "" {
+			r.Err = so.Err + ": " + so.Msg
+			return
+		}
+	}
+	for _, s := range j.Setup {
+		if so := common.EvalIn(scope, s); so.Err != "" {
+			r.Err = fmt.Sprintf("%s: %s: %s", s, so.Err, so.Msg)
+			return
+		}
+	}
+	l, ok := o.Value.(instLocker)
+	if !ok {
+		r.Err = "the instance has no Lock()"
+		return
+	}
+	var code slip.Code
+	func() {
+		defer func() {
+			if rec := recover(); rec != nil {
+				r.Err = fmt.Sprintf("read: %v", rec)
+			}
+		}()
+		code = slip.ReadString(j.Runs[0], scope)
+		for i, f := range code {
+			if lst, ok := f.(slip.List); ok && len(lst) > 0 {
+				code[i] = slip.CompileList(lst)
+			}
+		}
+		// evaluate once without the lock held: everything that is compiled on first evaluation is compiled now
+		for _, f := range code {
+			scope.Eval(f, 0)
+		}
+		for _, s := range j.Finals { // forms that undo what the warm-up evaluation did
+			common.EvalIn(scope, s)
+		}
+	}()
+	if r.Err != "" {
+		return
+	}
+	done := make(chan string, 1)
+	finished := false
+	l.Lock()
+	go evalProbe(scope, code, done)
+	deadline := time.Now().Add(5 * time.Second)
+wait:
+	for time.Now().Before(deadline) {
+		select {
+		case r.Value = <-done:
+			finished, r.Probed = true, true
+			break wait
+		default:
+		}
+		switch probeGoroutine() {
+		case "sync.Mutex.Lock", "semacquire":
+			r.Blocked, r.Probed = true, true
+			break wait
+		}
+		time.Sleep(100 * time.Microsecond)
+	}
+	l.Unlock()
+	if !r.Probed {
+		r.Hang = true
+	}
+	if !finished {
+		select {
+		case r.Value = <-done:
+		case <-time.After(5 * time.Second):
+			r.Hang = true
+		}
+	}
+	return
+}
+
 func runJob(j job) (r result) {
 	if j.Kind == "lockprobe" {
 		return runLockProbe(j)
+	}
+	if j.Kind == "instprobe" {
+		return runInstProbe(j)
 	}
 	t0 := time.Now()
 	r.ID = j.ID
@@ -486,6 +582,10 @@ func Worker(ctx *common.Ctx) {
 		"(defclass c17cell () ((v :initform 0)))",
 		"(defflavor c17fcell ((v 0)) () :gettable-instance-variables :settable-instance-variables)",
 		"(defflavor c17sflav () ())",
+		"(defclass c17icell () ((v :initform 0 :accessor c17i-v :reader c17i-rv :writer c17i-wv) (w :initform 1)))",
+		"(defflavor c17ifcell ((v 0) (w 1)) () :gettable-instance-variables :settable-instance-variables)",
+		"(defmethod (c17ifcell :peek) () v)",
+		"(defmethod (c17ifcell :poke) (x) (setq v x))",
 	} {
 		if o := common.EvalIn(s, src); o.Err != "" {
 			fmt.Fprintln(os.Stderr, "worker setup failed:", src, o.Err, o.Msg)
